@@ -5,7 +5,11 @@
 // model allows for an unsynchronised variable, so the rewrite cannot make
 // correct code fail). No yield is inserted after a Lock()/RLock() call in the
 // same function body (until the matching Unlock statement), so that no task
-// parks holding a mutex; sync/atomic calls stay atomic.
+// parks holding a mutex; sync/atomic calls stay atomic. Locks that span calls or
+// are taken with TryLock are tracked at run time: simyield.L(+1) follows every
+// Lock()/RLock() statement and successful TryLock()/TryRLock(), simyield.L(-1)
+// precedes every Unlock()/RUnlock() (also deferred ones); the simulator skips
+// preemption points while the running task's count is above zero.
 package astyield
 
 import (
@@ -34,6 +38,25 @@ func Y(point string) {
 	if h := Hook; h != nil {
 		h(point)
 	}
+}
+
+// Lock is installed by the simulator: the running task took (+1) or is about to
+// release (-1) a mutex.
+var Lock func(delta int)
+
+//go:norace
+func L(delta int) {
+	if h := Lock; h != nil {
+		h(delta)
+	}
+}
+
+//go:norace
+func T(ok bool) bool {
+	if ok {
+		L(1)
+	}
+	return ok
 }
 `
 
@@ -107,9 +130,10 @@ func RewriteDirOpts(dir string, opt Options) (Stats, error) {
 						}
 					}
 				}
+				r.wrapTryLocks(fd.Body)
 				r.block(fd.Body)
 			}
-			if r.yields == 0 {
+			if r.yields+r.depths == 0 {
 				continue
 			}
 			addImport(f, YieldImport)
@@ -137,7 +161,94 @@ type rewriter struct {
 	locked bool
 	yields int
 	splits int
+	depths int
 	tmpN   int
+}
+
+func (r *rewriter) depthCall(d int) *ast.CallExpr {
+	r.depths++
+	return &ast.CallExpr{
+		Fun:  &ast.SelectorExpr{X: ast.NewIdent("simyield"), Sel: ast.NewIdent("L")},
+		Args: []ast.Expr{&ast.BasicLit{Kind: token.INT, Value: fmt.Sprintf("%d", d)}},
+	}
+}
+
+func isMethodCall(e ast.Expr, names ...string) bool {
+	ce, ok := e.(*ast.CallExpr)
+	if !ok || len(ce.Args) != 0 {
+		return false
+	}
+	se, ok := ce.Fun.(*ast.SelectorExpr)
+	if !ok {
+		return false
+	}
+	for _, n := range names {
+		if se.Sel.Name == n {
+			return true
+		}
+	}
+	return false
+}
+
+func isOnceDo(e ast.Expr) bool {
+	ce, ok := e.(*ast.CallExpr)
+	if !ok || len(ce.Args) != 1 {
+		return false
+	}
+	se, ok := ce.Fun.(*ast.SelectorExpr)
+	return ok && se.Sel.Name == "Do"
+}
+
+// wrapTryLocks turns every X.TryLock() / X.TryRLock() expression of the body
+// into simyield.T(X.TryLock()).
+func (r *rewriter) wrapTryLocks(body *ast.BlockStmt) {
+	var expr func(e ast.Expr) ast.Expr
+	expr = func(e ast.Expr) ast.Expr {
+		switch v := e.(type) {
+		case nil:
+			return nil
+		case *ast.CallExpr:
+			if isMethodCall(v, "TryLock", "TryRLock") {
+				r.depths++
+				return &ast.CallExpr{Fun: &ast.SelectorExpr{X: ast.NewIdent("simyield"), Sel: ast.NewIdent("T")}, Args: []ast.Expr{v}}
+			}
+			for i := range v.Args {
+				v.Args[i] = expr(v.Args[i])
+			}
+		case *ast.UnaryExpr:
+			v.X = expr(v.X)
+		case *ast.BinaryExpr:
+			v.X, v.Y = expr(v.X), expr(v.Y)
+		case *ast.ParenExpr:
+			v.X = expr(v.X)
+		}
+		return e
+	}
+	ast.Inspect(body, func(n ast.Node) bool {
+		switch v := n.(type) {
+		case *ast.IfStmt:
+			v.Cond = expr(v.Cond)
+		case *ast.ForStmt:
+			v.Cond = expr(v.Cond)
+		case *ast.ExprStmt:
+			v.X = expr(v.X)
+		case *ast.AssignStmt:
+			for i := range v.Rhs {
+				v.Rhs[i] = expr(v.Rhs[i])
+			}
+		case *ast.ReturnStmt:
+			for i := range v.Results {
+				v.Results[i] = expr(v.Results[i])
+			}
+		case *ast.SwitchStmt:
+			v.Tag = expr(v.Tag)
+		case *ast.CaseClause:
+			for i := range v.List {
+				v.List[i] = expr(v.List[i])
+			}
+		}
+		return true
+	})
 }
 
 func (r *rewriter) mentions(n ast.Node) bool {
@@ -229,6 +340,25 @@ func (r *rewriter) block(b *ast.BlockStmt) {
 
 func (r *rewriter) stmts(list []ast.Stmt) []ast.Stmt {
 	var out []ast.Stmt
+	// emit appends s together with the run-time lock count bookkeeping
+	emit := func(s ast.Stmt) {
+		if es, ok := s.(*ast.ExprStmt); ok && isMethodCall(es.X, "Unlock", "RUnlock") {
+			out = append(out, &ast.ExprStmt{X: r.depthCall(-1)})
+		}
+		if es, ok := s.(*ast.ExprStmt); ok && isOnceDo(es.X) {
+			// the function of a sync.Once runs under the Once's own mutex
+			out = append(out, &ast.ExprStmt{X: r.depthCall(1)}, s, &ast.ExprStmt{X: r.depthCall(-1)})
+			return
+		}
+		out = append(out, s)
+		if es, ok := s.(*ast.ExprStmt); ok && isMethodCall(es.X, "Lock", "RLock") {
+			out = append(out, &ast.ExprStmt{X: r.depthCall(1)})
+		}
+		if ds, ok := s.(*ast.DeferStmt); ok && isMethodCall(ds.Call, "Unlock", "RUnlock") {
+			// registered later = runs earlier: the count drops right before the unlock
+			out = append(out, &ast.DeferStmt{Call: r.depthCall(-1)})
+		}
+	}
 	for _, s := range list {
 		// function literals are bodies of their own (own lock state)
 		ast.Inspect(s, func(x ast.Node) bool {
@@ -300,7 +430,7 @@ func (r *rewriter) stmts(list []ast.Stmt) []ast.Stmt {
 			}
 		}
 		if r.locked {
-			out = append(out, s)
+			emit(s)
 			if isLockCall(s, "Unlock", "RUnlock") {
 				r.locked = false
 			}
@@ -329,7 +459,7 @@ func (r *rewriter) stmts(list []ast.Stmt) []ast.Stmt {
 		if head != nil && r.mentions(head) {
 			out = append(out, r.yieldStmt(s.Pos()))
 		}
-		out = append(out, s)
+		emit(s)
 	}
 	return out
 }
